@@ -6,7 +6,7 @@ From Coq Require Import Strings.Byte NArith ZArith List.
 From Coq Require Import Strings.String.
 Import ListNotations.
 Local Open Scope list_scope.
-From LLIR Require Import Lib.Bytes Lib.Radix Model.Natsort Model.Assemble Model.Writer Gen.Enums Model.EnumModel Model.IntLit Model.Enc Model.Types Model.TypeString Model.Gep Model.ResultType Model.Numbering Model.MetadataIDs Model.Skeleton Model.History Model.FloatBits Model.FloatX87 Model.FloatPPC.
+From LLIR Require Import Lib.Bytes Lib.Radix Model.Natsort Model.Assemble Model.Writer Gen.Enums Model.EnumModel Model.IntLit Model.Enc Model.Types Model.TypeString Model.Gep Model.ResultType Model.Numbering Model.MetadataIDs Model.Skeleton Model.History Model.FloatBits Model.FloatX87 Model.FloatPPC Model.Users.
 
 Definition byte_of_N_total (n : N) : byte := match Byte.of_N n with Some b => b | None => x00 end.
 (* C19: run the chunks against a writer failing after k bytes: (size, failed?, delivered, calls) *)
@@ -111,6 +111,10 @@ Definition h_rename (p : nat) (n : bool) : op := Rename p n.
 Definition h_print : op := Print.
 Definition h_query : op := Query.
 Definition c14_final (h : list op) (l : list item) : option (list item) := final_print h l.
+(* C15: the successor cache; a history step is (is_write, target index, block) *)
+Definition c15_succs (targets : list Z) (h : list (bool * (nat * Z))) : list (list Z) :=
+  fst (trun Z (map (fun o => match o with (true, (i, b)) => TWrite Z i b | (false, _) => TSuccs Z end) h)
+            {| t_targets := targets; t_cache := None |}).
 (* C10: values cross as (code, sign, mantissa, exponent): 0 zero, 1 finite, 2 inf, 3 nan, 4 panic *)
 Definition fval_code (v : fval) : nat * bool * Z * Z :=
   match v with
@@ -143,4 +147,4 @@ Extraction "model.ml" byte_of_N_total Byte.to_N
   Enc.global_id Enc.local_id Enc.label_id c11_dec_global c11_dec_local c11_dec_label c11_dec_type c11_dec_comdat c11_dec_metadata
   TypeString.ty_string TypeString.equal_go
   gep_result gep_inst gep_parse gep_expr mk_index c06_ir c06_asm mk_item c08_assign Numbering.it_id mk_gent c08_print_after_parse c17_assign sk_translate sk_translate_rev mk_top mk_use sk_name sk_num sk_ns sk_kind h_insert h_remove h_rename h_print h_query c14_final Numbering.it_named
-  c10_dec_ieee c10_rt_ieee c10_dec80 c10_rt80 c10_dec_ppc c10_rt_ppc hex_of_Z.
+  c15_succs c10_dec_ieee c10_rt_ieee c10_dec80 c10_rt80 c10_dec_ppc c10_rt_ppc hex_of_Z.
